@@ -336,6 +336,15 @@ def run(repo: Repo, tier: str) -> Report:
                 return kws["microseconds"].value
         return None
 
+    for nm_ in ("end_date", "ndays", "start_date"):
+        try:
+            single_return(meth[nm_], f"Dekad.{nm_}")
+        except AnalysisError:
+            ob("R-FORMULA", nm_, f"{nm_} is a single expression built from the neighbouring dekad's start and the shared resolution delta", False,
+               f"Dekad.{nm_} has its own control flow / table: the number of days is no longer the difference of the abutting start dates, so it can "
+               f"disagree with start_date/end_date (e.g. a calendar rule of its own)", meth[nm_].body[-1])
+    if any(not o.ok for o in rep.obls if o.role.startswith(("end_date is", "ndays is", "start_date is"))):
+        return rep
     ed = single_return(meth["end_date"], "Dekad.end_date")
     oke = False
     dlt = None
